@@ -271,6 +271,15 @@ func init() {
 		}
 		return os2ipTerms(bs)
 	}
+	// xorhh32(s, t): big-endian value of the 32 bytes  hashout(s)[i] ^ hashout(t)[i]
+	specFuncs["xorhh32"] = func(env *SpecEnv, n *ast.CallExpr) Value {
+		a, b := hashoutArr(env.term(n.Args[0])), hashoutArr(env.term(n.Args[1]))
+		var bs []*Term
+		for i := int64(0); i < 32; i++ {
+			bs = append(bs, env.e.bitOp(token.XOR, mkSelect(a, mkInt64(i)), mkSelect(b, mkInt64(i)), types.Typ[types.Uint8]))
+		}
+		return os2ipTerms(bs)
+	}
 	specFuncs["rdstate"] = func(env *SpecEnv, n *ast.CallExpr) Value {
 		v := env.eval(n.Args[0])
 		id, ok := env.e.objID(v)
@@ -405,7 +414,7 @@ func init() {
 	}
 	intrinsics["(crypto.Hash).New"] = func(e *Engine, st *State, fr *Frame, args []Value, in *ssa.Call) Value {
 		e.usedIntrinsic("(crypto.Hash).New")
-		h := args[0].(*Term)
+		h := st.sub(args[0].(*Term))
 		if !h.IsConst() || h.Val.Int64() != 5 {
 			e.fail("(crypto.Hash).New: only SHA-256 (id 5) is modelled; the hash id must be fixed by a precondition")
 		}
